@@ -10,6 +10,8 @@ package main
 import (
 	"encoding/json"
 	"fmt"
+	"os"
+	"path/filepath"
 	"net/url"
 	"path"
 	"sort"
@@ -36,6 +38,31 @@ func c03NewLoader(files map[string]any) (*openapi3.Loader, *url.URL) {
 		return jsonBytes(f), nil
 	}
 	return ld, &url.URL{Path: "root.json"}
+}
+
+// c03LoadFromFile: the document and the files it refers to are written into a fresh directory and loaded with
+// Loader.LoadFromFile (the real file reader, relative references resolved against the root's location)
+func c03LoadFromFile(data []byte, files map[string]any) (*openapi3.T, error) {
+	dir, err := os.MkdirTemp("", "c03-")
+	if err != nil {
+		return nil, err
+	}
+	defer os.RemoveAll(dir)
+	for name, f := range files {
+		if name == "root.json" {
+			continue
+		}
+		if err := os.WriteFile(filepath.Join(dir, name), jsonBytes(f), 0o600); err != nil {
+			return nil, err
+		}
+	}
+	root := filepath.Join(dir, "root.json")
+	if err := os.WriteFile(root, data, 0o600); err != nil {
+		return nil, err
+	}
+	ld := openapi3.NewLoader()
+	ld.IsExternalRefsAllowed = true
+	return ld.LoadFromFile(root)
 }
 
 func jsonBytes(v any) []byte {
@@ -174,7 +201,23 @@ func c03PathItem(desc string) map[string]any {
 	return map[string]any{"get": map[string]any{"responses": map[string]any{"200": map[string]any{"description": desc}}}}
 }
 
-func genC03Loader(ctx *hx.Ctx, emit func(hx.Case)) {
+func genC03Loader(ctx *hx.Ctx, emit0 func(hx.Case)) {
+	// every directed document goes through LoadFromData(WithPath) and, in turn (thorough: both), through
+	// LoadFromFile (real files in a fresh directory) and json/yaml.Unmarshal + ResolveRefsIn
+	nth := 0
+	emit := func(c hx.Case) {
+		emit0(c)
+		entries := []string{"file", "resolveIn"}
+		for i, e := range entries {
+			if !ctx.Thorough() && i != nth%2 {
+				continue
+			}
+			x := cloneCase(c)
+			x["entry"] = e
+			emit0(x)
+		}
+		nth++
+	}
 	formats := []string{"json", "yaml"}
 	sets := [][]c03RefKind{}
 	for _, k := range c03RefKinds {
